@@ -1,7 +1,9 @@
 """C13 - Rendering splits the document into files without losing or repeating content.
 
 streams
-  split : abstract trees (text leaves / elements with level, id, title, ref, name, footnote flag) x split level
+  split : (the driver also renders with the C15 model of Filenames as the name supply and predicts the real names; they
+          are compared with the names the real Filenames issues)
+          abstract trees (text leaves / elements with level, id, title, ref, name, footnote flag) x split level
           x real filename templates.  Driver: Model.Render.render with a counter name supply + the Spec's
           prescription (units in pre-order, body text then footnote text).  Implementation: the same tree built
           as real plasTeX DOM nodes (Command subclasses mixing in SectionUtils), rendered by the real
@@ -18,28 +20,33 @@ from framework import Case, Violation, run_driver
 ID = 'C13'
 LEAN_MODULE = 'PlasVerif.Properties.C13'
 LEVEL_TEXT = ('Lean 4 theorems over a model of Renderer.render / cacheFilenames / Renderable.filename / Renderable.__str__ / '
-              'SectionUtils.footnotes with the filename generator as a parameter: for every document tree, split level, template and '
-              'generator, render_partition proves that the files written are exactly one per unit at or above the (effective) split level, '
-              'named by the generator in document order, each holding the body text of its region in document order followed by the '
-              'footnote text of the region (so every text leaf occurs exactly once, in the file of its nearest splitting ancestor); '
-              'one_file_per_split_unit, owner_is_nearest_splitting_ancestor, every_text_exactly_once, footnotes_gathered_at_end, '
-              'filenames_distinct_and_clean (from the C15 guarantee), render_deterministic and single_name_template_one_file are stated '
-              'separately. Templates (what a node prints around its children) are abstracted; real Jinja2/simpleTAL templates are '
-              'carried by the doc13 document stream only.')
+              'SectionUtils.footnotes with the filename generator as a parameter: for every document tree (footnotes nested, units inside '
+              'footnotes, preamble nodes included), split level, template and generator, render_partition(_tops) proves that the files written '
+              'are exactly one per unit at or above the (effective) split level, named by the generator in document order, each holding the '
+              'body text of its region in document order followed by the footnote text of the region (so every text leaf occurs exactly '
+              'once, in the file of its nearest splitting ancestor); one_file_per_split_unit, owner_is_nearest_splitting_ancestor, '
+              'every_text_exactly_once, marker_once_in_one_file, footnotes_gathered_at_end, render_deterministic, '
+              'single_name_template_one_file are stated separately; render_fails_only_with_generator / render_succeeds_iff / render_error_iff '
+              'characterise success (rendering fails exactly when a name request fails, with the generator\'s exception); '
+              'filenames_distinct_and_clean_with_Filenames instantiates the generator with the C15 model of plasTeX/Filenames.py and proves, '
+              'without any hypothesis on the generator, that the file names are pairwise distinct, not taken before, and that a forbidden '
+              'character in a name is one the template or extension spells literally. Templates (what a node prints around its children) '
+              'are abstracted; real Jinja2/simpleTAL templates are carried by the doc13 document stream only.')
 LEVEL_NOTE = ('Trusted: Lean kernel (axioms propext, Classical.choice, Quot.sound only), the correspondence harness and its generators, '
-              'CPython. The filename generator is a parameter of the model with the C15 guarantee (distinct, clean names) as a hypothesis. '
+              'CPython. The filename generator is a parameter of the model; for the C15 model of Filenames the guarantee (distinct, clean names) is '
+              'proved, and the names that model predicts are compared with the real names on every split case. '
               'Modelled not verified: template expansion (Jinja2/simpleTAL), images, theme extras, filenameoverride/splitlevel attributes.')
 TECHNIQUE = 'Lean 4 proof (mutual structural induction on document trees) + differential correspondence (stub-template renderer) + document-level oracle'
 TRUSTED = ['real HTML5/XHTML templates render the children of a node in order (doc13 stream only)',
-           'plasTeX/Filenames.py is a parameter of the model (property C15); its names are checked for distinctness and forbidden characters on every case']
+           'plasTeX/Filenames.py is tied to its model by property C15; here its real names are compared with the names the composed model predicts, and checked for distinctness and forbidden characters, on every case']
 ASSUMPTIONS = ['no node carries a filenameoverride or splitlevel attribute (set nowhere in plasTeX)',
                'every node with level < ENDSECTIONS_LEVEL mixes in SectionUtils (true of all plasTeX classes)',
                'blank titles are not combined with $title(n) (defect D12 of the filename generator, property C15)',
-               'footnotes are not nested and contain no sectioning unit (domain of the theorems; the model itself covers them)']
-RULE = ('split: trees generated recursively from the seed (sections nested by level, paragraphs, inline nodes, footnotes; ~15% malformed: '
-        'nested footnotes, units inside footnotes, several/no document-level roots, dying templates, split levels >= 100); '
-        'non-trivial = spec defined and at least two files written; distinct = distinct driver request line. '
-        'doc13: non-trivial = at least two files written')
+               'a footnote is never itself a sectioning unit (domain of the theorems; nested footnotes and units inside footnotes are covered)']
+RULE = ('split: trees generated recursively from the seed (sections nested by level, paragraphs, inline nodes, footnotes, footnotes '
+        'nested in footnotes, units inside footnotes; ~15% malformed: sections out of level order, several/no document-level roots, '
+        'dying templates, split levels >= 100); non-trivial = spec defined and at least two files written; distinct = distinct '
+        'driver request line. doc13: non-trivial = at least two files written')
 EXHAUSTIVE = {}
 CASE_TIMEOUT = 20
 
@@ -137,8 +144,8 @@ class TreeGen:
         if r < 0.8:
             return T(tag=self.newtag(), level=rng.choice([1001, 1001, 201]), name=rng.choice(['emph', 'textbf', 'quote']),
                      kids=[self.inline(depth - 1, in_foot) for _ in range(rng.randint(0, 2))])
-        if in_foot and not (self.malformed and rng.random() < 0.5):
-            return self.text()
+        if in_foot and rng.random() >= (0.5 if self.malformed else 0.3):
+            return self.text()      # otherwise: a footnote nested in a footnote
         return T(tag=self.newtag(), level=1001, foot=True, name='footnote',
                  kids=[self.inline(depth - 1, True) for _ in range(rng.randint(0, 2))])
 
@@ -178,7 +185,7 @@ class TreeGen:
                 node.kids.append(self.section(sub, depth - 1))
                 if rng.random() < 0.15:
                     node.kids.append(self.par())
-        if self.malformed and rng.random() < 0.2 and node.kids:
+        if rng.random() < (0.2 if self.malformed else 0.05) and node.kids:
             # a unit inside a footnote
             node.kids.append(T(tag=self.newtag(), level=1001, foot=True, name='footnote', kids=[self.section(rng.randint(0, 3), 0)]))
         return node
@@ -467,6 +474,8 @@ def spec_view(impl_str):
 
 def spec_expected(spec):
     res = []
+    if not spec:
+        return res          # in the domain, no unit at all: no file
     for part in spec.split(';'):
         name, _, rest = part.partition('=')
         head, _, tx = rest.partition(':')
@@ -478,6 +487,17 @@ def spec_expected(spec):
 def judge(o):
     o.corr_ok = (o.impl == o.model)
     o.prop_ok = True
+    # the same rendering with the C15 model of Filenames as the name supply predicts the real names (aux[1])
+    if len(o.aux) > 1 and o.aux[1] != '-':
+        if o.aux[1] == 'err:ValueError':
+            if o.impl != 'err:ValueError':
+                o.corr_ok = False
+                o.note = 'the Filenames model gives up, the implementation does not'
+        else:
+            predicted = [''.join(chr(int(x)) for x in w.split(',')) for w in o.aux[1].split()[1:]]
+            if not o.impl.startswith('ok ') or o.case.meta.get('names') != predicted:
+                o.corr_ok = False
+                o.note = 'names %r differ from the names the Filenames model issues %r' % (o.case.meta.get('names'), predicted)
     if o.impl.startswith('ok '):
         prob = o.case.meta.get('names_problem')
         if prob:
@@ -606,10 +626,15 @@ class DocGen:
                 if rng.random() < 0.25:
                     fk = []
                     fw = []
-                    for _ in range(rng.randint(1, 2)):
+                    for j in range(rng.randint(1, 2)):
                         self.mark += 1
                         fk.append(T(m=self.mark))
                         fw.append('MK%d' % self.mark)
+                        if j == 0 and rng.random() < 0.15:
+                            # a footnote inside the footnote: a footnote of its own, listed before its host
+                            self.mark += 1
+                            fk.append(T(tag=self.newtag(), level=1001, foot=True, name='footnote', kids=[T(m=self.mark)]))
+                            fw.append('\\footnote{MK%d}' % self.mark)
                     node.kids.append(T(tag=self.newtag(), level=1001, foot=True, name='footnote', kids=fk))
                     words.append('\\footnote{%s}' % ' '.join(fw))
             r = rng.random()
